@@ -77,6 +77,17 @@ def case(rep, drv, rnd, i, tier):
             if p2 is None and not (set(comp.heads_of(front[2])) <= added2):
                 p2 = 'reloading from the same path defines %s, the program has clause heads %s' % (sorted(added2), sorted(set(comp.heads_of(front[2]))))
             problem = p2
+        if problem is None and model[0] == 'ok' and i % 7 == 3:
+            # with the file-name header switched on, whatever the file is called: the output loads and
+            # defines the clause heads, nothing else
+            fname = rnd.choice(['C:\\Users\\x\\new.prolog', 'dir\\x41.prolog', 'a"""b.prolog', "it's.prolog", 'tab\tname.prolog', 'plain.prolog', 'back\\'])
+            r2 = comp.real_compile(text, {'filename': True, 'source_file': fname})
+            if r2[0] != 'ok':
+                problem = 'with the file-name header (%r) the text no longer compiles: %s' % (fname, r2[1])
+            else:
+                problem, added2 = comp.load_check(r2[1])
+                if problem is None and added2 != set(comp.heads_of(front[2])):
+                    problem = 'with the file-name header (%r) loading defines %s' % (fname, sorted(added2))
         if problem:
             rep.violation(dict(payload, kind_of_failure=problem))
             return
